@@ -116,7 +116,7 @@ def run(ev, vd):
     ev.assumptions += [
         "write / read locations are interpreted over the locally stored edges (a proxy is a source if it has a stored outgoing edge)",
         "add fields follow the delta protocol: mirrors hold the identity before they are written; proxies refreshed by a broadcast are not written again before they are consumed",
-        "the sync harness uses bulk-synchronous syncs (async = false); asynchronous syncs and DGTerminator run end to end in C20's Async application runs, and DGTerm.tla shows the detector safe and live only under the assumption that all-reduce rounds do not overtake point-to-point messages handed to MPI earlier (without it TLC finds an early termination; not reproducible on one machine)",
+        "a third of the min / max rounds run bulk-asynchronously (syncs repeated until DGTerminator fires; only with an update bitset and a selective encoding), add fields only bulk-synchronously; DGTerm.tla shows the detector safe and live only under the assumption that all-reduce rounds do not overtake point-to-point messages handed to MPI earlier (without it TLC finds an early termination; not reproducible on one machine)",
         "GPU personalities, edge substrates, array fields and sync_on_demand are not exercised",
         "message arrival orders between hosts are sampled by real MPI runs; the reduce/broadcast protocol is explored exhaustively in Gluon.tla"]
     ev.cov["engines"] = ["mc", "free", "tv"]
